@@ -152,7 +152,10 @@ func (c *compactCleaner) cleanSegment(seg *segment, keyOffsets *sync.Map, hw int
 		// Retain all messages with no keys and last message for each key.
 		// Also retain all messages after the HW.
 		if key == nil || offset == latestOffset || offset >= hw {
-			entries := entriesForMessageSet(cleaned.Position(), ms)
+			entries, err := entriesForMessageSet(cleaned.Position(), ms)
+			if err != nil {
+				return nil, removed, err
+			}
 			if err := cleaned.WriteMessageSet(ms, entries); err != nil {
 				return nil, removed, err
 			}
